@@ -43,7 +43,8 @@ DECIDING = ["histories_run", "targets_compared", "encodes_observed", "df_snapsho
             "edit_in_place_histories"]
 FLOOR = {"quick": 1500, "thorough": 20000}
 EXHAUSTIVE_NOTE = {"quick": "all histories of length <=1 (pool docs x 3 ops x pool targets x sharing on/off); all edit histories of length <=1",
-                   "thorough": "all histories of length <=2 with sharing off, length <=1 with sharing on"}
+                   "thorough": "all histories of length <=1 over the whole pool (sharing on/off), all histories of length 2 "
+                               "over the 19 core documents with sharing off, all edit histories"}
 OPS = ["new", "enc", "enc2"]
 COMPONENTS = ["page", "body", "colheader", "title", "subline", "footnote", "source", "page_header", "page_footer"]
 
@@ -260,11 +261,18 @@ def shareable(a, b):
     return out
 
 
-def all_histories(maxlen, share_modes=(False, True)):
-    steps = [(n, op) for n in NAMES for op in OPS]
+# documents whose histories of length 2 are enumerated completely in the thorough tier (the whole pool would
+# give 40 x (120)^2 histories); every other document takes part at length <= 1 and in the sampled histories
+CORE = ["plain3", "plain5", "w1_3", "w1_5", "col_a", "col_b", "paged", "pageby", "subline", "grouped", "raising",
+        "multi_a", "figure", "land", "bcol_a", "bcol_b", "badcolor", "multi_raising", "pg_dbl"]
+
+
+def all_histories(maxlen, share_modes=(False, True), names=None):
+    names = names or NAMES
+    steps = [(n, op) for n in names for op in OPS]
     for L in range(0, maxlen + 1):
         for prior in itertools.product(steps, repeat=L):
-            for tgt in NAMES:
+            for tgt in names:
                 for sh in share_modes:
                     if sh and not any(shareable(p[0], tgt) for p in prior):
                         continue
@@ -301,13 +309,14 @@ def plan(tier, seed):
         enum = list(all_histories(1)) + list(edit_histories())
         nrand = 1400
     else:
-        enum = list(all_histories(1)) + [h for h in all_histories(2, share_modes=(False,)) if len(h["prior"]) == 2]
+        enum = list(all_histories(1)) + [h for h in all_histories(2, share_modes=(False,), names=CORE)
+                                         if len(h["prior"]) == 2]
         enum += list(edit_histories())
         nrand = 40000
     k = 16
     descs = []
     for i in range(k):
-        descs.append({"enum": enum[i::k], "nrand": nrand // k, "baselines": base, "timeout": 1800})
+        descs.append({"enum": enum[i::k], "nrand": nrand // k, "baselines": base, "timeout": 1800 if tier == "quick" else 5400})
     return descs
 
 
